@@ -1,2 +1,27 @@
-(* C11 -- placeholder *)
-Theorem C11_placeholder : True. Proof. exact I. Qed.
+(* C11 -- concurrent senders never corrupt the wire.  Statements only. *)
+From Coq Require Import List.
+From Model Require Import Conc.
+From Proofs Require Import ConcFacts.
+Import ListNotations.
+
+(* for every set of programs (any number of threads, any calls, compressed or not) and every schedule, the bytes on
+   the wire are a sequence of whole frames -- part 1 immediately followed by part 2 of the same frame of the same
+   thread -- except that the thread inside the write's critical section may have written the first half of its own
+   frame; frames are never interleaved or torn *)
+Theorem C11_whole_frames : forall progs sched,
+  let st := exec (init_shared, map mk_thread progs) sched in
+  complete (s_wire (fst st)) \/
+  exists t c r, s_lock (fst st) = Some t /\ s_wire (fst st) = mkp t c P1 :: r /\ complete r.
+Proof. exact whole_frames. Qed.
+Print Assumptions C11_whole_frames.
+
+Theorem C11_invariant : forall sched st, sys_inv st -> sys_inv (exec st sched).
+Proof. exact exec_inv. Qed.
+Print Assumptions C11_invariant.
+
+Example C11_nonvacuous :
+  let st := exec (init_shared, map mk_thread [[KSend true true 1]; [KSend true true 2]])
+                 [0;0;0; 1; 0;0;0; 1; 0;0;0;0; 1;1;1;1;1;1;1;1;1;1] in
+  complete (s_wire (fst st)) /\ length (s_wire (fst st)) = 4 /\ rev (s_zorder (fst st)) = [(0, 1); (1, 2)] /\
+  map (fun w => w_tid w) (rev (s_wire (fst st))) = [0; 0; 1; 1].
+Proof. vm_compute. repeat split; try reflexivity. apply (CFrame 1 (KSend true true 2)). apply (CFrame 0 (KSend true true 1)). constructor. Qed.
